@@ -1052,6 +1052,42 @@ Proof.
   - apply Forall2_map_twin; [|exact H]. intros u v (Hs & _ & Hc). repeat split; cbn; assumption.
 Qed.
 
+(* ... and it touches nothing but the affinity: every URN afterwards is a URN held before with another affinity
+   (scheme, path, display, printed forms and derived country as stored), none is lost or invented.
+   [ContactURN.SetChannel used to rebuild the URN with urns.NewFromParts, which re-normalizes the path: this statement
+   was then false of the code — tel:12065551212 became tel:+12065551212 — while true of this model, which never
+   normalized; found by the second bug hunt, repaired in flows/urn.go, and now compared (URN text after the
+   operation) on every run.] *)
+Definition same_but_affinity (u v : urn) : Prop := exists a, v = set_affinity u a.
+
+Lemma prefer_step_same : forall c u, same_but_affinity u (prefer_step c u).
+Proof.
+  intros c u. unfold prefer_step, same_but_affinity.
+  destruct (String.eqb (u_scheme u) tel && supports c tel).
+  - destruct (String.eqb (u_affinity (set_affinity u (ch_uuid c))) "" && supports c (u_scheme (set_affinity u (ch_uuid c))));
+      eexists; reflexivity.
+  - destruct (String.eqb (u_affinity u) "" && supports c (u_scheme u)); [eexists; reflexivity|].
+    exists (u_affinity u). destruct u; reflexivity.
+Qed.
+
+Lemma update_preferred_channel_keeps_urns : forall ch us,
+  List.length (update_preferred_channel ch us) = List.length us /\
+  Forall (fun v => exists u, In u us /\ same_but_affinity u v) (update_preferred_channel ch us).
+Proof.
+  intros ch us. unfold update_preferred_channel. destruct ch as [c|].
+  - destruct (negb (has_role c role_send)).
+    + split; [reflexivity|]. apply Forall_forall. intros v Hv. exists v. split; [exact Hv|].
+      exists (u_affinity v). destruct v; reflexivity.
+    + split.
+      * rewrite app_length. rewrite <- (map_length (prefer_step c) us).
+        generalize (map (prefer_step c) us). intro l. induction l as [|x l IH]; [reflexivity|].
+        cbn [filter]. destruct (String.eqb (u_affinity x) (ch_uuid c)); cbn [negb List.length]; lia.
+      * apply Forall_app. split; apply Forall_forall; intros v Hv; apply filter_In in Hv; destruct Hv as [Hv _];
+          apply in_map_iff in Hv; destruct Hv as (u & <- & Hu); exists u; (split; [exact Hu | apply prefer_step_same]).
+  - split; [apply map_length|]. apply Forall_forall. intros v Hv. apply in_map_iff in Hv.
+    destruct Hv as (u & <- & Hu). exists u. split; [exact Hu | exists ""; reflexivity].
+Qed.
+
 (* the hypothesis of add_urn_twin is satisfiable both ways *)
 Example add_urn_twin_example :
   has_urn [ex_tel "+12065551212"] (ex_tel "+12065550000") = has_urn [ex_tel "+12065553434"] (ex_tel "+12065550000") /\
